@@ -38,15 +38,16 @@ import (
 // Swarm represents a gossiper.
 type Swarm struct {
 	sync.Mutex
-	name    mesh.PeerName         // The name of ourselves.
-	actions chan func()           // The action queue for the peer.
-	cancel  context.CancelFunc    // The cancellation function.
-	config  *config.ClusterConfig // The configuration for the cluster.
-	state   *event.State          // The state to synchronise.
-	router  *mesh.Router          // The mesh router.
-	gossip  mesh.Gossip           // The gossip protocol.
-	members *memberlist           // The memberlist of peers.
-	local   sync.Map              // The subscriptions this broker has announced and not withdrawn.
+	name     mesh.PeerName         // The name of ourselves.
+	actions  chan func()           // The action queue for the peer.
+	cancel   context.CancelFunc    // The cancellation function.
+	config   *config.ClusterConfig // The configuration for the cluster.
+	state    *event.State          // The state to synchronise.
+	router   *mesh.Router          // The mesh router.
+	gossip   mesh.Gossip           // The gossip protocol.
+	members  *memberlist           // The memberlist of peers.
+	local    sync.Map              // The subscriptions this broker has announced and not withdrawn.
+	announce sync.Mutex            // Serialises announcing a subscription with reconciling it against gossip.
 
 	OnSubscribe   func(message.Subscriber, *event.Subscription) bool // Delegate to invoke when the subscription event is received.
 	OnUnsubscribe func(message.Subscriber, *event.Subscription) bool // Delegate to invoke when the unsubscription event is received.
@@ -340,13 +341,20 @@ func (s *Swarm) merge(buf []byte) (mesh.GossipData, error) {
 // subscriptions are still alive here and must be asserted again. Conversely, a
 // subscription which is active in the cluster but was never announced by this
 // process belongs to a previous run of this broker and is withdrawn.
+//
+// A client may subscribe or unsubscribe while this runs: what was announced and
+// what the state holds are read, compared and corrected under the same lock as
+// Notify updates them, otherwise a subscription removed in between would be
+// asserted again (or one just made would be withdrawn).
 func (s *Swarm) reconcile(key string, ev *event.Subscription) {
+	s.announce.Lock()
+	defer s.announce.Unlock()
 	announced, ok := s.local.Load(key)
 	switch active := s.state.Has(ev); {
 	case ok && !active:
-		s.Notify(announced.(*event.Subscription), true)
+		s.notify(announced.(*event.Subscription), true)
 	case !ok && active:
-		s.Notify(ev, false)
+		s.notify(ev, false)
 	}
 }
 
@@ -421,6 +429,15 @@ func (s *Swarm) OnGossipUnicast(src mesh.PeerName, buf []byte) (err error) {
 
 // Notify notifies the swarm when an event is on/off.
 func (s *Swarm) Notify(ev event.Event, enabled bool) {
+	if _, ok := ev.(*event.Subscription); ok {
+		s.announce.Lock()
+		defer s.announce.Unlock()
+	}
+	s.notify(ev, enabled)
+}
+
+// notify applies the event locally and broadcasts it (for subscriptions, with s.announce held).
+func (s *Swarm) notify(ev event.Event, enabled bool) {
 	op := event.NewState("")
 	if sub, ok := ev.(*event.Subscription); ok {
 		if enabled {
